@@ -6,6 +6,7 @@ package main
 // conditional stores into every alternative.
 
 import (
+	"golang.org/x/tools/go/ssa"
 	"fmt"
 	"go/token"
 	"go/types"
@@ -144,4 +145,35 @@ func sameAlts(a, b Val) bool {
 		}
 	}
 	return true
+}
+
+// sameRawRoot: on every edge the pointer cell a holds a single raw pointer into the same
+// memory (same root, view, bounds and leading steps); only the last index differs.
+func (c *Ctx) sameRawRoot(es []edge, a *ssa.Alloc) bool {
+	var first *Path
+	for _, e := range es {
+		q, ok := e.st.ptrs[a]
+		if !ok || q.P == nil || len(q.Alts) > 0 || len(q.P.Steps) == 0 {
+			return false
+		}
+		last := q.P.Steps[len(q.P.Steps)-1]
+		if !last.IsIdx || !last.Raw {
+			return false
+		}
+		if first == nil {
+			first = q.P
+			continue
+		}
+		p := q.P
+		if p.Kind != first.Kind || p.Ref != first.Ref || p.Cell != first.Cell || p.Glob != first.Glob || p.View != first.View ||
+			p.Lo != first.Lo || p.Hi != first.Hi || len(p.Steps) != len(first.Steps) {
+			return false
+		}
+		for i := 0; i < len(p.Steps)-1; i++ {
+			if p.Steps[i] != first.Steps[i] {
+				return false
+			}
+		}
+	}
+	return first != nil
 }
